@@ -123,7 +123,7 @@ def name_scheme(ck, S, RID):
 
     LOCALE_DATES = []
 
-    def role_of(fn, a):
+    def role_of(fn, a, _depth=0):
         a = deref_local(fn, a)
         from engine.strabs import OWNER
         fn = OWNER.get(id(a), fn)
@@ -156,6 +156,16 @@ def name_scheme(ck, S, RID):
             return "index"
         if is_call(a, ("QFileInfo::baseName", "QFileInfo::fileName")):
             return "base(%s)" % a.get("callee").split("::")[-1]
+        if isinstance(a, dict) and a.get("k") == "ref" and a.get("dk") == "local" and not _depth:
+            # a piece of the active file's name that is edited before it is used (shortened, lower-cased ...): no longer that piece
+            dn_, var_ = local_var(fn, a["decl"])
+            if var_ is not None and isinstance(var_.get("init"), dict):
+                r0 = role_of(fn, var_["init"], 1)
+                MUT = ("chop", "truncate", "remove", "replace", "append", "prepend", "insert", "resize", "clear", "fill", "operator+=", "operator=", "push_back", "push_front", "swap")
+                muts = sorted({strip_tmpl(c_.get("callee") or "").split("::")[-1] for c_ in fn.calls() if c_.get("ck") in ("member", "operator") and
+                               is_ref_to((c_.get("obj") if c_.get("ck") == "member" else (c_.get("args") or [None])[0]), a["decl"]) and strip_tmpl(c_.get("callee") or "").split("::")[-1] in MUT})
+                if muts and not r0.startswith("?"):
+                    return "%s~%s" % (r0, ",".join(muts))
         return "?" + describe(a)[:20]
 
     def tokens_writer(t, args, fn):
